@@ -53,6 +53,18 @@ def base_rule(draw):
 
 @st.composite
 def cases(draw):
+    if draw(st.integers(0, 5)) == 0:
+        # two different rules compiled one after the other with the SAME, unchanged extra macro file whose macro body refers to
+        # a macro that each rule defines differently ("the macro definitions are not altered by being used")
+        inner_a, inner_b = draw(st.sampled_from([("movl", "lea"), ("%rbp", "%rbx"), ("push", "pop"), ("0x10", "0x8")]))
+        shape = draw(st.sampled_from(["item", "operand"]))
+        if shape == "item":
+            lib = [{"name": "@lib_", "pattern": [{"$and": ["@inner_", draw(st.sampled_from(["call", "ret", "nop"]))]}]}]
+            use = ["@lib_"]
+        else:
+            lib = [{"name": "@lib_", "pattern": [{"mov": ["@inner_", draw(st.sampled_from(["rax", "%r8"]))]}]}]
+            use = ["@lib_", "ret"]
+        return {"pair": True, "lib": lib, "use": use, "inner": [inner_a, inner_b], "repeat_first": draw(st.booleans())}
     L, pattern = draw(base_rule())
     factored, macros, kinds = factor(draw, pattern)
     assume(macros)
@@ -124,7 +136,34 @@ def strategy(tier):
     return cases()
 
 
+def evaluate_pair(case):
+    ev = Eval()
+    sc = jasm_io.scratch()
+    libpath = sc.write("shared_lib_macros.yaml", jasm_io.dump_yaml({"macros": case["lib"]}))  # written once, used by every compilation below
+    order = [0, 1] + ([0] if case["repeat_first"] else [])
+    ev.tags = ["kind=shared-lib-pair", "extra-files", "multi-use"]
+    ev.nontrivial = True
+    ev.subcases = 0
+    for step, which in enumerate(order):
+        inner = {"name": "@inner_", "pattern": case["inner"][which]}
+        doc_f = jasm_io.make_doc(case["use"], macros=[inner])
+        inlined = inline_all(copy.deepcopy(case["use"]), case["lib"] + [inner])
+        rf = jasm_io.compile_rule(doc_f, macros=[libpath])
+        ri = jasm_io.compile_rule(jasm_io.make_doc(inlined))
+        ev.subcases += 2
+        if rf[0] != "ok" or ri[0] != "ok":
+            ev.dev("shared-lib-rule-rejected", step=step, factored=list(rf[:2])[:2] if rf[0] != "ok" else "ok", inlined=list(ri[:2])[:2] if ri[0] != "ok" else "ok")
+            break
+        if rf[1] != ri[1]:
+            ev.dev("shared-library-macro-altered-by-use", step=step, inner=case["inner"][which], factored_regex=rf[1][:400], inlined_regex=ri[1][:400])
+            break
+    ev.sample = {"shared_lib": case["lib"], "rule": case["use"], "inner_definitions": case["inner"]}
+    return ev
+
+
 def evaluate(case):
+    if case.get("pair"):
+        return evaluate_pair(case)
     ev = Eval()
     macros = [m for f in case["macro_files"] for m in f] + case["macros_in_file"]
     inlined = inline_all(copy.deepcopy(case["factored"]), macros)
